@@ -230,6 +230,12 @@ class Gen:
             out.append("---" if r.random() < 0.8 else "--- " + self.comment())
             for _ in range(r.choice([0, 0, 1])):
                 out.append(self.comment())
+        if r.random() < 0.08:
+            # document-level head comment: missed by the peek (4+ blanks), then a blank line
+            out.append(" " * r.choice([4, 5, 9]) + self.comment())
+            out.append("")
+            if r.random() < 0.5:
+                out.append(self.comment())
         base = r.choice([4, 5, 8]) if r.random() < 0.12 else 0
         for d in range(ndocs):
             if d > 0:
@@ -245,6 +251,11 @@ class Gen:
 
 
 ADVERSARIAL_STREAMS = [
+    # a first-document header comment the 4-byte peek does not take (indented by 4+ blanks, after such a line, after a BOM), followed by a
+    # blank line: yaml.v3 hands it over as the DOCUMENT node's head comment, which Decode must merge into the root
+    "    # c1 top\n\n# c2 second\na: 1\n", "# c1 lead\n    # c2 top\n\n# c3 second\nk: [1, 2]\n", "    \n# c1 top\n\n# c2 second\n- x\n- y\n",
+    "\ufeff# c1 top\n\n# c2 second\na: {b: c}\n", "     # c1 top\n\n\n# c2 second\n- 1\n", "    # c1 top\n\na: 1\n", "      # c1 a\n      # c2 b\n\nk: v\n",
+    "---\n    # c1 top\n\n# c2 second\na: 1\n", "    # c1 top\n\n# c2 second\na: 1\n---\n    # c3 third\n\nb: 2\n", "\ufeff    # c1 top\n\n- x\n",
     "branches: [main] # c1\nresources: {} # c2\nl:\n  - [a, b] # c3\n  - {k: v} # c4\n  - [] # c5\n", "- {a: 1} # c1\n- [x] # c2\n", "k: {a: [1, 2]} # c1 note\n",
     "- |2-\n\n  a\n", "k: |2\n\n  a\n  b\n", "- \"\\n\\nx\\ny\"\n",
     # header comments indented with TAB / mixed blanks, white-space-only lines, CRLF
